@@ -40,7 +40,9 @@ CONSTANTS Kind,        \* "simple" | "comp" | "set" | "big" | "loca"
           MaxSteps,    \* API calls after the build phase (0 = generation only)
           FinishFull,  \* TRUE: every Finish choice; FALSE: one choice per shape, selected by Salt
           With256,     \* simple: include the 256-point run (repeat count 255)
-          Targets      \* big: total glyf sizes to hit exactly
+          Targets,     \* big: total glyf sizes to hit exactly; max: which maxima of the format (see MaxGlyph)
+          SharedBuf    \* TRUE: Encode models a writer that assembles glyf in ONE buffer shared by all its
+                       \* results (a deliberately wrong design: HistInv must fail, checked in GlyfSharedBuf.cfg)
 
 VARIABLES ph,      \* "build" | "run"
           acc,     \* the shape under construction (runs / components / glyph values / sizes)
@@ -59,7 +61,8 @@ VARIABLES ph,      \* "build" | "run"
                    \*           ops  |-> the calls made so far (what the harness replays)]
 
 vars == <<ph, acc, cur, pads, shape, enc, gs, have, prev, ghost, last, steps, hs>>
-view == <<ph, acc, cur, pads, shape, enc, gs, have, prev, ghost, last, steps, hs.res, hs.pgs, hs.pres>>
+view == <<ph, acc, cur, pads, shape, enc, gs, have, prev, ghost, last, steps, hs.res, hs.pgs, hs.pres,
+          hs.encs, hs.pencs>>
 
 NoEnc == [fmt |-> -1, loca |-> <<>>, glyf |-> <<>>]
 Pick(s, k) == s[((Salt + k) % Len(s)) + 1]
@@ -296,6 +299,38 @@ BigInit ==
        /\ ghost = OffsOf(recs)
 
 ---------------------------------------------------------------------------
+(* kind "max": the count maxima of the format, encoded compactly.  Targets selects:               *)
+(*   65535, 65536  simple glyph with that many points (last endPtsOfContours 0xFFFE / 0xFFFF):     *)
+(*                 256 points per flag + repeat-count pair, all deltas zero (first pair as x-short  *)
+(*                 vectors of magnitude 0, the others "same")                                       *)
+(*   32767         simple glyph with numberOfContours 32767, one point each                         *)
+(*   1             simple glyph with instructionLength 0xFFFF                                       *)
+(*   2             composite glyph with 600 component records                                       *)
+RepeatPairs(f, n) ==      \* n logical flags f as (flag + REPEAT, count) pairs of at most 256
+  Concat([j \in 1..((n + 255) \div 256) |-> <<f + 8, (IF j * 256 <= n THEN 256 ELSE n - (j - 1) * 256) - 1>>])
+MaxPoints(np, ends) ==
+  LET first == IF np >= 256 THEN 256 ELSE np
+      body  == Concat([i \in 1..Len(ends) |-> U16(ends[i])]) \o U16(0)
+                 \o <<1 + 2 + 16 + 32 + 8, first - 1>> \o RepeatPairs(1 + 16 + 32, np - first)
+                 \o Zeros(first)
+  IN SimpleValue(Len(ends), <<0, 0, 0, 0>>, body)
+MaxGlyph(code) ==
+  IF code \in {65535, 65536} THEN MaxPoints(code, <<Salt % 100, code - 1>>)
+  ELSE IF code = 32767 THEN MaxPoints(32767, [i \in 1..32767 |-> i - 1])
+  ELSE IF code = 1 THEN SimpleValue(1, <<0, 0, 0, 0>>,
+                          U16(0) \o U16(65535) \o [i \in 1..65535 |-> (i * ((Salt % 50) + 3)) % 256] \o <<49>>)
+  ELSE [k |-> "c", nc |-> -1, bbox |-> <<0, -1, 1, 2>>, body |-> <<>>, instr |-> <<>>, hasinstr |-> FALSE,
+        comps |-> [i \in 1..600 |-> [flags |-> 2 + (IF i < 600 THEN 32 ELSE 0), gid |-> (i * 109 + Salt) % 65536,
+                                      data |-> <<i % 256, (i * 7) % 256>>]]]
+MaxInit ==
+  \E code \in Targets :
+    LET g    == MaxGlyph(code)
+        recs == <<PadTo(EncodeValue(g), 2)>>
+    IN /\ shape = <<g>>
+       /\ enc = EncodeRecs(recs, (Salt + code) % 2)
+       /\ ghost = OffsOf(recs)
+
+---------------------------------------------------------------------------
 (* kind "loca": the layout function on size vectors with real sizes        *)
 LocaSizes == {0, 2, 12, 65522, 65534, 65536, 131058, 131070, 131072, 16777204, 16777216}   \* ... 2^16, 2^17, 2^24
 AddSize(s) ==
@@ -321,7 +356,16 @@ LocaLayout ==
 (* API phase.  The in-memory glyph set gs is a VALUE: no call except Decode and Put replaces   *)
 (* it, and the results of earlier calls are values too.  Every call records the state before   *)
 (* it (hs.pgs, hs.pres) so that History below can say so.                                      *)
-Called(op, res2) == hs' = [res |-> res2, pgs |-> gs, pres |-> hs.res, ops |-> Append(hs.ops, op)]
+Called3(op, res2, encs2) == hs' = [res |-> res2, pgs |-> gs, pres |-> hs.res, ops |-> Append(hs.ops, op),
+                                   encs |-> encs2, pencs |-> hs.encs]
+Called(op, res2) == Called3(op, res2, hs.encs)
+\* Handing out an Encode result: it is a value of its own.  With SharedBuf the glyf bytes of all earlier
+\* results live in the writer's one buffer and are overwritten (unless the buffer had to grow).
+Clobber(encs, new) ==
+  [k \in 1..Len(encs) |-> [encs[k] EXCEPT !.glyf = IF Len(new) <= Len(@) THEN new \o SubSeq(@, Len(new) + 1, Len(@))
+                                                   ELSE @]]
+HandOut(e, src) == Append(IF SharedBuf THEN Clobber(hs.encs, e.glyf) ELSE hs.encs,
+                          [fmt |-> e.fmt, loca |-> e.loca, glyf |-> e.glyf, src |-> src])
 Op(name, i, m, k) == [op |-> name, i |-> i, m |-> m, k |-> k]
 
 Decode ==
@@ -337,17 +381,26 @@ Decode ==
 
 \* a writer may pad every record to a multiple m of 2 and may use the long version at will
 Encode(m, fmt) ==
-  /\ ph = "run" /\ steps < MaxSteps /\ have
+  /\ ph = "run" /\ steps < MaxSteps /\ have /\ Len(hs.encs) < 3
   /\ Kind = "ops" => (m = 2 /\ fmt = 1)          \* the replayed call has no parameters
   /\ LET recs == [i \in 1..Len(gs) |-> PadTo(EncodeValue(gs[i]), m)]
          offs == OffsOf(recs)
      IN /\ FormatValid(fmt, offs)
         /\ enc' = EncodeRecs(recs, fmt)
         /\ ghost' = offs
+        /\ Called3(Op("encode", 0, <<>>, 0), hs.res, HandOut(EncodeRecs(recs, fmt), gs))
   /\ prev' = gs
   /\ last' = "encode" /\ steps' = steps + 1
-  /\ Called(Op("encode", 0, <<>>, 0), hs.res)
   /\ UNCHANGED <<ph, acc, cur, pads, shape, gs, have>>
+
+\* Encode of ANOTHER glyph set (the glyphs in reverse order) while earlier results are still held
+EncodeRev ==
+  /\ ph = "run" /\ steps < MaxSteps /\ have /\ Len(hs.encs) < 3 /\ Len(hs.encs) >= 1
+  /\ LET src  == Reverse(gs)
+         recs == [i \in 1..Len(src) |-> PadTo(EncodeValue(src[i]), 2)]
+     IN Called3(Op("encrev", 0, <<>>, 0), hs.res, HandOut(EncodeRecs(recs, 1), src))
+  /\ last' = "encrev" /\ steps' = steps + 1
+  /\ UNCHANGED <<ph, acc, cur, pads, shape, enc, gs, have, prev, ghost>>
 
 FixMaps == {<< <<3, 9>>, <<4, 4>>, <<258, 0>>, <<1, 65535>>, <<65535, 2>> >>,
             << <<3, 4>>, <<4, 3>>, <<258, 258>>, <<1, 1>>, <<65535, 65534>> >>}
@@ -391,8 +444,9 @@ OpsInit ==
 Init ==
   /\ acc = <<>> /\ cur = <<0, 0>> /\ pads = <<>>
   /\ gs = <<>> /\ have = FALSE /\ prev = <<>> /\ last = "new" /\ steps = 0
-  /\ hs = [res |-> <<>>, pgs |-> <<>>, pres |-> <<>>, ops |-> <<>>]
+  /\ hs = [res |-> <<>>, pgs |-> <<>>, pres |-> <<>>, ops |-> <<>>, encs |-> <<>>, pencs |-> <<>>]
   /\ IF Kind = "big" THEN ph = "run" /\ BigInit
+     ELSE IF Kind = "max" THEN ph = "run" /\ MaxInit
      ELSE IF Kind = "ops" THEN ph = "run" /\ OpsInit
      ELSE ph = "build" /\ shape = <<>> /\ enc = NoEnc /\ ghost = <<>>
 
@@ -407,6 +461,7 @@ Next ==
   \/ Decode
   \/ \E m \in {2, 4}, fmt \in {0, 1} : Encode(m, fmt)
   \/ \E i \in 1..3, m \in FixMaps : Fix(i, m)
+  \/ EncodeRev
   \/ Put
   \/ \E i \in 1..3 : Comps(i)
 
@@ -463,9 +518,18 @@ ResultOK(r) ==
           /\ Cardinality({q \in 1..Len(ea) : ea[q] # eb[q]}) <= 2 * Len(b.comps)
 FixInv ==
   /\ \A k \in 1..Len(hs.res) : ResultOK(hs.res[k])
-  /\ last \in {"fix", "comps", "encode"} => gs = hs.pgs                         \* source unchanged
+  /\ last \in {"fix", "comps", "encode", "encrev"} => gs = hs.pgs               \* source unchanged
   /\ last # "new" => SubSeq(hs.res, 1, Len(hs.pres)) = hs.pres                   \* earlier results unchanged
   /\ last = "fix" => hs.res[Len(hs.res)].src = gs[hs.res[Len(hs.res)].i]
+
+\* Encode results are values: every result handed out is unchanged by every later call and still
+\* decodes to the glyph set it was made from
+HistInv ==
+  /\ last # "new" => SubSeq(hs.encs, 1, Len(hs.pencs)) = hs.pencs
+  /\ \A k \in 1..Len(hs.encs) :
+       LET e == hs.encs[k]
+           d == DecodeSet(e.fmt, e.loca, e.glyf)
+       IN d.ok /\ CanonSet([i \in 1..Len(d.d) |-> Value(d.d[i])]) = CanonSet(e.src)
 
 \* generation: one CASE line per finished shape
 Info == [kind |-> Kind, glyphs |-> Len(shape), runs |-> IF Kind = "simple" THEN Len(acc) ELSE 0,
